@@ -8,7 +8,7 @@ from pbmon.oracle import fieldtrial as FT
 PROPERTY = "C14"
 NSHARDS = {"quick": 4, "thorough": 16}
 CLAUSES = {
-    "C14.records": 10000, "C14.truth": 1500, "C14.h2": 800,
+    "C14.records": 10000, "C14.truth": 1500, "C14.h2": 2000,
     "C14.means": 1000, "C14.invariance": 1500, "C14.alignment": 4000, "C14.truebv": 2000,
     "C14.variance": 100, "C14.constancy": 30, "C14.independence": 100,
 }
